@@ -169,3 +169,67 @@ pub fn after_eviction(rng: u64) -> Scenario {
         name: "after_eviction",
     }
 }
+
+/// index value that `idx` maps onto position `pos` of `len` live keyspaces
+fn sel(pos: usize, len: usize) -> u16 {
+    ((pos * 65536).div_ceil(len)).min(65535) as u16
+}
+
+/// Four keyspaces log into the same journal; one of them flushes (journal rotation: the journal is
+/// sealed with a watermark for every keyspace), then one keyspace is deleted, others flush, one
+/// lags with unflushed data. Which name plays which role is drawn from the seed (the watermark
+/// order is the hash-map order of the names). The sealed journal may only go once the lagging
+/// keyspace was flushed; the driver kills around every journal unlink.
+pub fn deleted_watermark(rng: u64) -> Scenario {
+    let mut x = Xs(rng | 1);
+    let cfg = Cfg {
+        flavor: flavor(&mut x),
+        journal_lz4: x.below(2) == 0,
+        db_manual_persist: false,
+        pos_scale: 64_000,
+        ks: (0..4).map(|_| kscfg(64 * 1024 * 1024, None)).collect(),
+        filter_mask: 0,
+    };
+    // roles: a permutation of the four positions
+    let mut perm = [0usize, 1, 2, 3];
+    for i in (1..4).rev() {
+        let j = x.below(i as u64 + 1) as usize;
+        perm.swap(i, j);
+    }
+    let (f1, d, l, f2) = (perm[0], perm[1], perm[2], perm[3]);
+    let mut live: Vec<usize> = vec![0, 1, 2, 3];
+    let at = |live: &Vec<usize>, who: usize| sel(live.iter().position(|p| *p == who).unwrap(), live.len());
+    let mut ops = vec![];
+    for who in [l, d, f2, f1] {
+        ops.push(Op::Insert { ks: at(&live, who), k: B::L(format!("w{who}").into_bytes()), v: B::L(vec![b'0' + who as u8; 1 + x.below(30) as usize]) });
+    }
+    ops.push(Op::Insert { ks: at(&live, f1), k: B::L(b"big".to_vec()), v: B::R { len: 1200 + x.below(300) as u32, seed: x.next() as u8, rnd: true } });
+    ops.push(Op::Rotate { ks: at(&live, f1) });
+    ops.push(Op::Step { n: 4 });
+    let focus_start = ops.len();
+    let delete_first = x.below(3) != 0;
+    if delete_first {
+        ops.push(Op::DeleteKs { ks: at(&live, d), keep_handle: x.below(2) == 0 });
+        live.retain(|p| *p != d);
+    }
+    ops.push(Op::Insert { ks: at(&live, f2), k: B::L(b"x".to_vec()), v: B::R { len: 50 + x.below(1300) as u32, seed: 3, rnd: true } });
+    ops.push(Op::Rotate { ks: at(&live, f2) });
+    ops.push(Op::Step { n: 4 });
+    if !delete_first {
+        ops.push(Op::DeleteKs { ks: at(&live, d), keep_handle: x.below(2) == 0 });
+        live.retain(|p| *p != d);
+    }
+    ops.push(Op::Insert { ks: at(&live, f1), k: B::L(b"y".to_vec()), v: B::L(b"second".to_vec()) });
+    ops.push(Op::Rotate { ks: at(&live, f1) });
+    ops.push(Op::Step { n: 4 });
+    ops.push(Op::Insert { ks: at(&live, l), k: B::L(b"late".to_vec()), v: B::L(b"l".to_vec()) });
+    let focus_end = ops.len();
+    if x.below(2) == 0 {
+        ops.push(Op::Reopen { alt: 0 });
+    }
+    Scenario {
+        case: Case { cfg, ops },
+        focus: focus_start..focus_end,
+        name: "deleted_watermark",
+    }
+}
